@@ -21,7 +21,7 @@ pub fn exec(a: &[&str]) -> String {
             verif_hooks::set_force_scalar(a[1] == "scalar");
             let d = DnaString::from_acgt_bytes(&bytes);
             verif_hooks::set_force_scalar(false);
-            format!("{}|{}", show_t(&d), txt(&d.to_ascii_vec()))
+            format!("{}|{}|{}", show_t(&d), txt(&d.to_ascii_vec()), txt(d.to_string().as_bytes()))
         }
         "kernel" => {
             let bytes = unhex(a[2]);
@@ -41,7 +41,8 @@ pub fn exec(a: &[&str]) -> String {
         }
         "str" => {
             let bytes = unhex(a[1]);
-            show_t(&DnaString::from_dna_string(std::str::from_utf8(&bytes).unwrap()))
+            let d = DnaString::from_dna_string(std::str::from_utf8(&bytes).unwrap());
+            format!("{}|{}", show_t(&d), txt(d.to_string().as_bytes()))
         }
         "only" => {
             let bytes = unhex(a[1]);
@@ -69,8 +70,10 @@ fn ascii_mix(rng: &mut Rng, n: usize, ascii_only: bool) -> Vec<u8> {
 }
 
 fn len_choice(rng: &mut Rng) -> usize {
-    match rng.below(5) {
-        0 => *rng.pick(&[0usize, 1, 31, 32, 33, 63, 64, 65, 95, 96, 97, 128, 130]),
+    match rng.below(10) {
+        0 | 1 => *rng.pick(&[0usize, 1, 31, 32, 33, 63, 64, 65, 95, 96, 97, 128, 130]),
+        // long texts: renderings and block loops have their own internal batch sizes
+        2 if rng.chance(1, 4) => *rng.pick(&[255usize, 256, 257, 512, 768, 1023, 1024, 1025, 1100, 2048, 2049]),
         _ => rng.below(131),
     }
 }
